@@ -28,10 +28,15 @@ let bytes_of_hex (s : string) : n list =
       else go (i - 1) (n_of_int (int_of_string ("0x" ^ String.sub s (2 * i) 2)) :: acc) in
     go (len - 1) []
   end
+let hex_tab : string array = Array.init 256 (fun i -> Printf.sprintf "%02x" i)
 let hex_of_bytes (b : n list) : string =
   match b with
   | [] -> "-"
-  | _ -> String.concat "" (List.map (fun x -> Printf.sprintf "%02x" (int_of_n x)) b)
+  | _ ->
+    let buf = Buffer.create 64 in
+    List.iter (fun x -> let v = int_of_n x in
+                 Buffer.add_string buf (if v >= 0 && v < 256 then hex_tab.(v) else Printf.sprintf "%02x" v)) b;
+    Buffer.contents buf
 
 let split_on c s = if s = "" then [] else String.split_on_char c s
 let tokens (line : string) : string list =
